@@ -419,8 +419,26 @@ class Contracts:
                     put('current_state', Ptr('STATE', Aff.sym(d).sub(1).mul(lay.ssize)))
                 st.tags['J'] = True
             st.tags['entry'] = label
+            for pre in getattr(self, 'presets', ()):
+                pre(self, st, label)
             out.append((label, st))
         return out
+
+    def current_level_offset(self, st, label, field):
+        """offset (Aff) of `field` of the state entry current_state points to, for an ok-* entry disjunct"""
+        F = self.lay.parser
+        c = (st.cells('P') or {}).get(((F['current_state'][0], ()), F['current_state'][1]))
+        if c is None or not isinstance(c[2], Ptr):
+            return None
+        return c[2].off.add(self.lay.state[field][0])
+
+    def preset_state_cell(self, st, label, field, value, size=None):
+        off = self.current_level_offset(st, label, field)
+        if off is None:
+            return False
+        sz = size or self.lay.state[field][1]
+        st.wcells('STATE')[(off.key(), sz)] = (off, sz, value)
+        return True
 
     def parser_init_state(self):
         """arbitrary prior contents of struct and state array; state/max_depth as the macros set them"""
